@@ -1084,6 +1084,20 @@ class Interp:
             r = a.copy()
             r.extend(b)
             return r
+        def _nat(x):
+            return x.native if isinstance(x, Inst) and isinstance(x.native, BA) else x if isinstance(x, BA) else None
+        if (isinstance(a, Inst) or isinstance(b, Inst)) and _nat(a) is not None and _nat(b) is not None and \
+                not any(isinstance(x, Inst) and x.cls is not None and self.prog.find_method(x.cls, dn)[1] is not None for x, dn in ((a, '__add__'), (b, '__radd__'))):
+            # bitarray.__add__: a new object of the left operand's type holding both bit strings; it is built by the library itself
+            # (no __init__ of a subclass runs, no overridden extend is called)
+            left = a if isinstance(a, Inst) else None
+            r = self.new_inst(left.cls) if left is not None and left.cls is not None else None
+            joined = _nat(a).copy()
+            joined.extend(_nat(b))
+            if r is None:
+                return joined
+            r.native = joined
+            return r
         # byte/str concatenation of symbolic pieces -> flattened 'cat' term
         def isseq(v):
             return (isinstance(v, K) and isinstance(v.v, (bytes, str, bytearray))) or \
